@@ -1,6 +1,7 @@
 package main
 
 import (
+	"verif/shim/vclock"
 	"bytes"
 	"compress/flate"
 	"context"
@@ -218,7 +219,7 @@ func c15Cases(signMode bool, user string) []c15Case {
 	for _, s := range []string{".", "....", "a.b.c.d.e", strings.Repeat("A", 70000), valid + ".", valid + valid, " " + valid, strings.ToUpper(valid)} {
 		add("shape", fmt.Sprintf("%.16q/len=%d", s, len(s)), s)
 	}
-	now := time.Now()
+	now := vclock.Now()
 	cl := func(iss string, exp time.Time) jwt.Claims {
 		return jwt.Claims{Subject: user, Issuer: iss, Expiry: jwt.NewNumericDate(exp)}
 	}
@@ -258,7 +259,7 @@ func c15Cases(signMode bool, user string) []c15Case {
 }
 
 func c15(env *Env, rep *Report) {
-	rep.Rule = "for both key modes (encrypt-only, sign-and-encrypt) and user names {empty, a, alice, alice@example.com, 300 characters, non-ASCII, quotes and newline}: from a token minted by the real GenerateUserToken every single-character substitution in each of the five JWE segments with 67 characters (quick: for the user alice; thorough: all users), insertions into the empty segment, every truncation, segment counts 0..7, arbitrary strings; tokens crafted under other encryption / signing keys, cross-mode tokens, other content-encryption and key algorithms (A256GCM, A128GCM, A256CBC-HS512, A128KW, A256KW, PBES2), issuers, expiry offsets {now-1h, now-70s, now-50s, now+50s, now+1h}, no exp, future nbf, plain HS256 / unsecured JWTs; each through security.UserInfo and the real web.TokenInfo handler; plus /tokeninfo methods {GET, POST, PUT, HEAD, DELETE} and parameter {absent, empty, twice}. " +
+	rep.Rule = "for both key modes (encrypt-only, sign-and-encrypt) and user names {empty, a, alice, alice@example.com, 300 characters, non-ASCII, quotes and newline}: from a token minted by the real GenerateUserToken every single-character substitution in each of the five JWE segments with 67 characters (quick: for the user alice; thorough: all users), insertions into the empty segment, every truncation, segment counts 0..7, arbitrary strings; tokens crafted under other encryption / signing keys, cross-mode tokens, other content-encryption and key algorithms (A256GCM, A128GCM, A256CBC-HS512, A128KW, A256KW, PBES2), issuers, expiry offsets {now-1h, now-70s, now-50s, now+50s, now+1h}, no exp, future nbf, plain HS256 / unsecured JWTs; each through security.UserInfo and the real web.TokenInfo handler; a clock history (token minted at t0 checked at t0, t0+4 min, t0+7 min; token minted at t0+7 min; both at t0+27 min) on the harness clock that the security package's time.Now follows; plus /tokeninfo methods {GET, POST, PUT, HEAD, DELETE} and parameter {absent, empty, twice}. " +
 		"Oracle (three-valued, independent AES-CBC-HMAC / HS256 verification): 200 + claims with sub == user only for must-accept tokens; must-refuse tokens get 403 and the body discloses no claim; 400 / 405 as stated; the user name occurs neither in the token text nor in any base64-decoded segment. distinct_nontrivial = distinct (mode, user, token) cases."
 	rep.Assumptions = append(rep.Assumptions, "expiry cases keep 10 s from the leeway boundary", "a non-empty encrypted-key segment or extra header parameters under valid keys are unspecified")
 	users := []string{"alice"}
@@ -281,7 +282,7 @@ func c15(env *Env, rep *Report) {
 			security.UserSigningKey = sk
 		}
 		rep.add("executions", 1)
-		exp, why, sub := c15Classify(c.Tok, []byte(c15Enc), sk, time.Now())
+		exp, why, sub := c15Classify(c.Tok, []byte(c15Enc), sk, vclock.Now())
 		r := httptest.NewRequest("GET", "https://gw.example/tokeninfo?access_token="+url.QueryEscape(c.Tok), nil)
 		rec := httptest.NewRecorder()
 		pan := ""
@@ -375,6 +376,40 @@ func c15(env *Env, rep *Report) {
 						one(signMode, u, c, true)
 					}
 				}
+			}
+		}
+	}
+	// the gateway's clock moves on: a token minted earlier expires, a new one is accepted
+	if env.Shard == 0 {
+		for _, signMode := range []bool{false, true} {
+			vclock.Reset()
+			security.UserEncryptionKey = []byte(c15Enc)
+			security.UserSigningKey = nil
+			if signMode {
+				security.UserSigningKey = []byte(c15Sign)
+			}
+			t0, _ := security.GenerateUserToken(context.Background(), "alice")
+			status := func(tok string) int {
+				rec := httptest.NewRecorder()
+				web.TokenInfo(rec, httptest.NewRequest("GET", "https://gw.example/tokeninfo?access_token="+url.QueryEscape(tok), nil))
+				return rec.Code
+			}
+			var got []int
+			got = append(got, status(t0)) // fresh: 200
+			vclock.Advance(4 * time.Minute)
+			got = append(got, status(t0)) // one minute left: 200
+			vclock.Advance(3 * time.Minute)
+			got = append(got, status(t0)) // expired two minutes ago: 403
+			t1, _ := security.GenerateUserToken(context.Background(), "alice")
+			got = append(got, status(t1)) // minted now: 200
+			vclock.Advance(20 * time.Minute)
+			got = append(got, status(t1), status(t0)) // both long expired: 403
+			vclock.Reset()
+			distinct++
+			rep.add("executions", 6)
+			rep.outcome(fmt.Sprintf("clock history sign=%v -> %v", signMode, got))
+			if fmt.Sprint(got) != "[200 200 403 200 403 403]" {
+				rep.violate("C15/expiry-not-judged-against-the-current-time", fmt.Sprintf("sign mode %v: token minted at t0 checked at t0, t0+4m, t0+7m, token minted at t0+7m checked then, both checked at t0+27m: statuses %v, want [200 200 403 200 403 403]", signMode, got), map[string]any{"noreplay": true})
 			}
 		}
 	}
